@@ -28,6 +28,12 @@ impl AcquireFut {
 }
 #[verifier::external_body]
 pub fn timeout(d: Duration, f: AcquireFut) -> (r: TimeoutAcq) ensures r.d == d { unimplemented!() }
+/// tokio::time::timeout_at(deadline, f): the timer's duration is the distance from the clock's current ghost instant to the deadline
+/// (no time passes in the model between computing the deadline and arming the timer)
+#[verifier::external_body]
+pub fn timeout_at(deadline: Instant, f: AcquireFut, clk: &Clock) -> (r: TimeoutAcq)
+    ensures r.d.nanos == (if deadline.t >= clk.now@ { (deadline.t - clk.now@) as u128 } else { 0 })
+{ unimplemented!() }
 impl TimeoutAcq {
     #[verifier::external_body]
     pub fn vx_await<Req, Res, E>(self, Tracked(tr): Tracked<&mut Trace<Req, Res, E>>) -> (r: Result<Result<OwnedSemaphorePermit, AcquireError>, Elapsed>)
